@@ -11,8 +11,8 @@ def classify(case_line):
 
 
 CFG = dict(
-    imports=["From Verif.C02 Require Import Model Spec."],
-    checker="check_case",
+    imports=["From Verif.C02 Require Import Model Spec ModelX SpecX."],
+    checker="check_xcase",
     n=dict(quick=280, thorough=12000),
     driver_args=lambda ctx, n, seed: ["-n", n, "-seed", seed, "-mode", "all"],
     shard=50,
